@@ -301,9 +301,11 @@ func runShardChild(a childArgs) error {
 			emit("K\tnot-killed")
 			os.Exit(5)
 		}
-		if fs != nil && !isMemCfg(a.cfg) && a.killStep < 0 {
+		if g.plainStep {
+			g.plainStep = false // this batch runs once, without injected faults (it follows a delete that failed for good)
+		} else if fs != nil && !isMemCfg(a.cfg) && a.killStep < 0 {
 			// fail the k-th failable storage operation of this batch, for every k until the batch runs through
-			if err := g.faultSweep(a, env, fs, b, step, emit); err == errSweepApplied {
+			if err := g.faultSweep(a, env, fs, b, step, emit); err == errSweepApplied || err == errSweepFailedForGood {
 				continue
 			} else if err != nil {
 				return err
@@ -736,6 +738,13 @@ func (g *genState) faultSweep(a childArgs, env *shardEnv, fs *faultStore, b batc
 		// an oversized request: a handful of positions spread over the whole batch
 		ks = []int64{1, 2, nops / 4, nops / 2, nops/2 + 1, 3 * nops / 4, nops - 1, nops}
 	}
+	// In every second history every delete batch and every other batch (from the second on) fails ONCE, at one position, and is not repeated: the
+	// following batches run on the same shard object, so whatever the failed one left behind in memory (id
+	// counters, caches) meets later writes. The failed step is a no-op for the reference.
+	failForGood := a.idx%2 == 1 && step >= 1 && (b.kind == 2 || step%2 == 1) && nops > 0 && a.steps >= 0
+	if failForGood {
+		ks = []int64{1 + int64(a.idx*7+step*13)%nops}
+	}
 	for _, k := range ks {
 		plan := &faultPlan{failAt: k}
 		fs.plan = plan
@@ -772,6 +781,12 @@ func (g *genState) faultSweep(a childArgs, env *shardEnv, fs *faultStore, b batc
 		}
 		sweepSeen[out+obs] = step
 		emit("R\t" + out + "\t" + obs)
+		if failForGood {
+			if b.kind == 2 {
+				g.forceInsertNext = true // the next batch is a plain insert: it meets whatever the failed delete left behind
+			}
+			return errSweepFailedForGood
+		}
 		// cold view: a copy of the file opened by a fresh instance with its own cache manager
 		if k%3 == 1 {
 			cp := filepath.Join(env.dir, "cold.bbolt")
@@ -801,6 +816,9 @@ func (g *genState) faultSweep(a childArgs, env *shardEnv, fs *faultStore, b batc
 }
 
 var errSweepApplied = fmt.Errorf("sweep applied the batch")
+
+// the batch failed under one injected fault and is NOT repeated: the history goes on from the unchanged state
+var errSweepFailedForGood = fmt.Errorf("the batch failed and the history moves on")
 
 // killJobs: (idx, cfg, killStep, killAt) cases to run in addition to the plain histories (set by the c07 sub-command)
 var killJobs [][4]int
